@@ -331,6 +331,28 @@ func runC19(tier string) int {
 			}
 			c19Check(r, strings.Join(parts, " "), true)
 			c19Check(r, strings.Join(parts, ""), true)
+			// Where no two neighbours can run together into another lexeme - one of them is a delimiter ( ) { } [ ] , : or a
+			// closed raw string, or the left one is a closed plain string - the blanks between them are dispensable: the sequence
+			// written without any blank is the same token sequence. (The lexemes are given by the language, not by the lexer:
+			// a lexer that reads 'raw`...`' as one identifier agrees with itself in every layout.)
+			glueSafe := L >= 2
+			for i := 0; glueSafe && i+1 < L; i++ {
+				glueSafe = c19Delimiter(parts[i]) || c19Delimiter(parts[i+1]) || c19ClosedRaw(parts[i]) || c19ClosedRaw(parts[i+1]) || (strings.HasPrefix(parts[i], "\"") && len(parts[i]) >= 2)
+			}
+			if glueSafe {
+				spaced, tight := strings.Join(parts, " "), strings.Join(parts, "")
+				a, pa := lexAll(spaced)
+				b, pb := lexAll(tight)
+				r.Add("tight_layout_comparisons", 1)
+				if !pa && !pb && !sameSeq(a, b) {
+					r.Report(harness.Violation{Sig: "C19:layout:tight", Summary: fmt.Sprintf("input %q: written without the dispensable blanks (%q) the token sequence changes: %s => %s", spaced, tight, seqString(a), seqString(b)), Replay: map[string]interface{}{"input": spaced, "variant": tight},
+						Recheck: func() bool {
+							a2, _ := lexAll(spaced)
+							b2, _ := lexAll(tight)
+							return !sameSeq(a2, b2)
+						}})
+				}
+			}
 			if L <= 3 {
 				c19Check(r, "\n"+strings.Join(parts, "\n\t")+"\n", true)
 				c19Check(r, strings.Join(parts, " # c\r\n"), L <= 2)
@@ -597,4 +619,12 @@ func tightLayout(src string) string {
 	}
 	out.WriteByte('\n')
 	return out.String()
+}
+
+func c19Delimiter(l string) bool {
+	return len(l) == 1 && strings.Contains("(){}[],:", l)
+}
+
+func c19ClosedRaw(l string) bool {
+	return len(l) >= 2 && l[0] == '`' && l[len(l)-1] == '`'
 }
